@@ -4,3 +4,10 @@ mod comment_parser;
 mod comment_parsers;
 mod masker;
 pub use comment_parser::CommentParser;
+
+/// Verification hooks: public forwarders to crate-private functions so that out-of-tree
+/// model-checking harnesses can drive the real code. Compiled only under `cfg(kani)`.
+#[cfg(kani)]
+pub mod verif_hooks {
+    pub use crate::comment_parsers::verif::*;
+}
